@@ -197,8 +197,8 @@ theorem deleted_lt_step {sh : Nat → Nat → Bool} {c : Nat} (hc : 0 < c)
 theorem shouldShrink_count (c : Nat) (hc : 0 < c) (d n : Nat) (h : c ≤ d) :
     shouldShrink ⟨0, 1, c⟩ d n = true := by
   simp only [shouldShrink]
-  have : ¬ d < c := by omega
-  have : c ≠ 0 := by omega
-  simp [*]
+  have h1 : ¬ ((d : Int) < (c : Int)) := by omega
+  have h2 : c ≠ 0 := by omega
+  simp [h1, h2]
 
 end Hive.C12a.Shrink
